@@ -73,6 +73,7 @@ func randHex(rng *rand.Rand) string {
 
 type step struct {
 	Op      string `json:"op"`
+	Req     string `json:"request,omitempty"`
 	IDClass string `json:"id_class"`
 	ID      string `json:"id,omitempty"`
 	Status  int    `json:"status"`
@@ -159,7 +160,24 @@ func sequential(r *vh.Run, c cfg, nHist, maxSteps int) {
 			case "initialize":
 				re = post(string(kit.InitBody(strconv.Itoa(reqN), "")), id)
 			case "request":
-				re = post(fmt.Sprintf(`{"jsonrpc":"2.0","id":%d,"method":"ping"}`, reqN), id)
+				// a request is any request: quiet ones, ones that fail, and ones whose handler writes
+				// notifications onto the answer stream before the answer
+				kinds := []string{
+					`"method":"ping"`,
+					`"method":"tools/list"`,
+					`"method":"tools/call","params":{"name":"echo","arguments":{"nonce":"c04","payload":"x"}}`,
+					`"method":"tools/call","params":{"name":"notify","arguments":{"nonce":"c04","n":1}}`,
+					`"method":"tools/call","params":{"name":"notify","arguments":{"nonce":"c04","n":4}}`,
+					`"method":"tools/call","params":{"name":"fail","arguments":{"nonce":"c04"}}`,
+					`"method":"tools/call","params":{"name":"no-such-tool"}`,
+					`"method":"resources/read","params":{"uri":"res://ok"}`,
+					`"method":"prompts/get","params":{"name":"p-ok","arguments":{"who":"w"}}`,
+					`"method":"no/such/method"`,
+				}
+				k := rng.Intn(len(kinds))
+				st.Req = kinds[k]
+				r.SetAdd("request_kinds", fmt.Sprintf("%d", k))
+				re = post(fmt.Sprintf(`{"jsonrpc":"2.0","id":%d,%s}`, reqN, kinds[k]), id)
 			case "notification":
 				re = post(`{"jsonrpc":"2.0","method":"notifications/verif","params":{"n":1}}`, id)
 			case "response-post":
